@@ -71,12 +71,9 @@ class CB:
 
 
 def bkey(b):
-    """structural key of a boolean formula (its printed form may abbreviate long atoms and collide)"""
-    if isinstance(b, B):
-        return (b.k,) + tuple(bkey(x) for x in b.a)
-    if isinstance(b, Rat):
-        return ('rat', frozenset(b.num.t.items()), frozenset(b.den.t.items()))
-    return b
+    """structural key of a boolean formula (its printed form may abbreviate long atoms and collide); interned, linear in the DAG size"""
+    from .sem import skey
+    return skey(b)
 
 
 class CompiledRoot:
